@@ -1402,6 +1402,10 @@ def solve_ivp(fun, t_span, y0, method='RK45', t_eval=None, dense_output=False,
             y_res.append(ode_system[-1].y)
             if ode_system.integration_status == "Integration terminated upon finding a triggered event.":
                 break
+        if ode_system.integration_status != "Integration terminated upon finding a triggered event.":
+            # the run covers t_span whatever output times were asked for: events (and the dense solution) behind the last
+            # output time belong to it
+            ode_system.integrate(**integration_options)
         if len(t_res) > 0:
             t_res = D.ar_numpy.stack(t_res, axis=0)
             y_res = D.ar_numpy.stack(y_res, axis=-1)
